@@ -43,6 +43,7 @@ var (
 	cLinkADR    = simrt.RegisterCounter("probe_linkadr_payload_closure")
 	cSixCustom  = simrt.RegisterCounter("probe_more_than_five_custom_channels")
 	cLookup     = simrt.RegisterCounter("probe_lookups")
+	cBeyondPlan = simrt.RegisterCounter("probe_device_set_with_channel_beyond_plan")
 )
 
 var names = []band.Name{band.EU868, band.US915, band.AU915, band.AS923, band.AS923_2, band.AS923_3, band.AS923_4,
@@ -635,6 +636,11 @@ func (st *state) closure(r *sim.Rand) {
 		if r.Intn(2) == 0 {
 			dev = append(dev, i)
 		}
+	}
+	if r.Intn(3) == 0 {
+		// a device may report channels the network (no longer) has
+		dev = append(dev, n+r.Intn(16))
+		simrt.Count(cBeyondPlan)
 	}
 	var pls []lorawan.LinkADRReqPayload
 	if !sim.Guard("panic", func() { pls = b.GetLinkADRReqPayloadsForEnabledUplinkChannelIndices(dev) }) {
